@@ -508,6 +508,45 @@ func exec(w *world, op string) string {
 	panic("unknown op " + op)
 }
 
+// checkCacheOK: the hypothesis `CacheOK` of the convergence theorems evaluated on the real code: for every
+// Felix-named chain that is not dirty, the cache of programmed hashes equals the hashes of the desired chain
+// (present in Felix's state and referenced), and there is no cache entry when the chain is not desired.
+func (w *world) checkCacheOK(op string) {
+	st := w.table.VerifState()
+	dirty := map[string]bool{}
+	for _, c := range st.DirtyChains {
+		dirty[c] = true
+	}
+	names := map[string]bool{}
+	for c := range st.DataplaneHashes {
+		names[c] = true
+	}
+	for c := range w.chains {
+		names[c] = true
+	}
+	for c := range names {
+		if !oursRe.MatchString(c) || dirty[c] {
+			continue
+		}
+		sc, present := w.chains[c]
+		desired := present && st.RefCounts[c] > 0
+		got, has := st.DataplaneHashes[c]
+		ok := desired == has
+		if ok && desired {
+			var want []string
+			for _, r := range sc.rules {
+				m := hashRe.FindStringSubmatch(r)
+				want = append(want, m[1])
+			}
+			ok = strings.Join(want, ",") == strings.Join(got, ",")
+		}
+		if !ok {
+			w.h.OracleFail("cache-not-desired", "a clean Felix chain's cached hashes differ from its desired hashes",
+				map[string]any{"chain": c, "cached": got, "has": has, "desired": desired, "op": op})
+		}
+	}
+}
+
 // convergenceOracle: apply_converges evaluated on the real code.  It is only demanded when the
 // Apply re-read the table (an iptables-save succeeded during this Apply) and no out-of-band edit
 // was injected after that read, i.e. when Felix's picture of the table was fresh.
@@ -777,6 +816,9 @@ func main() {
 		nontriv := false
 		for _, op := range ops {
 			out := exec(w, op)
+			if !w.dead && out != "panic" {
+				w.checkCacheOK(op)
+			}
 			h.Op(op, out)
 			k := strings.Fields(op)[0]
 			h.Count("op:" + k)
